@@ -159,6 +159,9 @@ def jobs(tier, seed):
     for e in E2E:
         js.append(dict(kind='e2e', name=e))
         js.append(dict(kind='e2e', name=e + '+robots'))
+    for n in ROBOTS_REDIRECTS:
+        for code in (301, 302, 303, 307, 308):
+            js.append(dict(kind='e2e', name='robots-redirect:%s:%d' % (n, code)))
     js.append(dict(kind='e2e', name='sitemap'))
     js.append(dict(kind='e2e', name='ftplink'))
     js.append(dict(kind='e2e', name='ftplink+follow'))
@@ -434,9 +437,61 @@ def run_ftp_link_e2e(follow_ftp):
     return None, obs
 
 
+ROBOTS_REDIRECTS = {
+    # name: (options, Location of /robots.txt, may the target be requested?)
+    'weak-otherhost': (['--no-strong-redirects'], 'http://b.test/elsewhere.txt', False),
+    'exhost': (['--exclude-hostnames', 'b.test'], 'http://b.test/elsewhere.txt', False),
+    'exdomain': (['--exclude-domains', 'b.test'], 'http://b.test/elsewhere.txt', False),
+    'regex': (['--reject-regex', 'secret'], '/secret-robots.txt', False),
+    'xdir': (['-X', '/priv'], '/priv/robots.txt', False),
+    'span-weak-regex': (['--span-hosts', '--no-strong-redirects', '--reject-regex', 'secret'],
+                        'http://b.test/secret.bin', False),
+    'strong-otherhost': ([], 'http://b.test/elsewhere.txt', True),
+    'samehost': ([], '/robots2.txt', True),
+}
+
+
+def run_robots_redirect_e2e(name, code):
+    """robots.txt of the start origin answers with a redirect: only robots.txt itself is
+    exempt from the rules, its redirect target is an ordinary redirect target."""
+    from vt.appharn import AppRun
+    opts, loc, allowed = ROBOTS_REDIRECTS[name]
+    rb = {'body': 'User-agent: *\nDisallow:\n', 'ctype': 'text/plain'}
+    site = {'hosts': {
+        'a.test': {'/': {'links': ['/a']}, '/a': {'links': []},
+                   '/robots.txt': {'redirect': [code, loc]}, '/robots2.txt': rb,
+                   '/secret-robots.txt': rb, '/priv/robots.txt': rb},
+        'b.test': {'/elsewhere.txt': rb, '/secret.bin': rb, '/robots.txt': rb}}}
+    argv = ['http://a.test/', '-r', '--delete-after', '--waitretry', '0'] + opts
+    out = AppRun(site, argv, Chooser(), early=False).run()
+    reqs = [(q['headers'].get('host'), q['target']) for q in out['requests']]
+    if out['result'] != 'ok' or out['exc']:
+        return 'crawl failed: %s %s' % (out['result'], out['exc']), reqs
+    tgt = crawl_target(loc)
+    if not allowed and tgt in reqs:
+        return ('redirect target of robots.txt requested although it is out of scope: '
+                'http://%s%s (options %s)' % (tgt[0], tgt[1], ' '.join(opts))), reqs
+    if allowed and tgt not in reqs:
+        return 'vacuous: the permitted redirect target of robots.txt was not requested', reqs
+    for want in (('a.test', '/'), ('a.test', '/a')):
+        if want not in reqs:
+            return 'page %s%s was not fetched' % want, reqs
+    return None, reqs
+
+
+def crawl_target(loc):
+    if loc.startswith('http://'):
+        h, _, p = loc[7:].partition('/')
+        return (h, '/' + p)
+    return ('a.test', loc)
+
+
 def run_e2e(name, chooser):
     from vt.appharn import AppRun
     from vt.checks import c01
+    if name.startswith('robots-redirect:'):
+        _, n, code = name.split(':')
+        return run_robots_redirect_e2e(n, int(code))
     if name == 'sitemap':
         return run_sitemap_e2e()
     if name.startswith('ftplink'):
